@@ -303,7 +303,13 @@ class Context(MutableMapping[Identifier, Symbol]):
     # ================================================================================ #
 
     def add_identifiers_to_context(self, assignment: ast.expr) -> None:
-        self.add(Name(name, token=assignment) for name in unravel_names(assignment))
+        # NOTE `a.b = v` and `a[0] = v` set a part of `a`, they do not define `a` itself
+        names = unravel_names(assignment, _get_name=fullname_of)
+        self.add(
+            Name(name.lstrip("*"), token=assignment)
+            for name in names
+            if name.lstrip("*").isidentifier()
+        )
 
     def remove_identifiers_from_context(self, assignment: ast.expr) -> None:
         # NOTE `del a.b` and `del a[0]` delete a part of `a`, `a` itself stays defined
